@@ -35,7 +35,10 @@ Spec == Init /\ [][Next]_q
 \* sanity: a sphere that contains its centre vertex contains at least that vertex; a plane contains its own point
 QueryOK == /\ (q.kind = "sphere" /\ q.c \in Verts) => q.c \in q.found
            /\ q.kind = "plane" => q.c \in q.found
-Emit == PrintT(ToJson([q EXCEPT !.found = { v : v \in q.found }]))
+\* With the patches between the first and the second column of cells merged face to face (mergePatchPairs) every lattice
+\* point of the plane x = 2 carries TWO vertices (master side, slave side): a query finds both or neither
+Interface == { v \in Verts : v[1] = 2 }
+Emit == PrintT(ToJson([q EXCEPT !.found = { v : v \in q.found }] @@ [twice |-> q.found \cap Interface]))
 
 \* ---- viewpoint frames ---------------------------------------------------------
 Axes6 == { <<1, 0, 0>>, <<-1, 0, 0>>, <<0, 1, 0>>, <<0, -1, 0>>, <<0, 0, 1>>, <<0, 0, -1>> }
